@@ -127,7 +127,16 @@ def observe_stream(defn, stream: bytes, yield_errors: bool, root=None):
             elif isinstance(p, Exception):
                 out.append(("exception-object", type(p).__name__))
             else:
-                out.append(("packet", items_of(p)))
+                its = items_of(p)
+                # the two documented views of a packet partition its items: the 7 CCSDS header fields, then everything else, in order
+                try:
+                    hv, uv = list(p.header.items()), list(p.user_data.items())
+                    allv = list(p.items())
+                    if len(allv) >= 7 and (hv != allv[:7] or uv != allv[7:]):
+                        its = its + [("<header/user_data views>", "str", f"header={[k for k, _ in hv]} user_data={[k for k, _ in uv]}", "str", "")]
+                except Exception as e:  # noqa: BLE001
+                    its = its + [("<header/user_data views>", "str", f"raised {type(e).__name__}", "str", "")]
+                out.append(("packet", its))
             if len(out) > 16:
                 out.append(("horizon",))
                 break
